@@ -974,5 +974,17 @@ Section THist.
         apply (G_final V hash pin alive t t1 _ HA HC HG). intros b Hb. rewrite app_nil_r, <- in_rev. now apply Hbl.
   Qed.
   Print Assumptions table_history.
+
+  (* one collection with an arbitrary survivor predicate: values never move; exactly the chained cells whose index the
+     predicate rejects are freed; the invariants are re-established *)
+  Theorem sweep_ok fuel t alive t' : AInv t -> CInv V hash pin t -> sweep_all V alive fuel t (bucket_range t) = Ok t' ->
+    AInv t' /\ CInv V hash pin t' /\ (forall j, val t' j = val t j) /\
+    (forall j, occupied t' j <-> occupied t j /\ (chained V pin t j -> alive j = true)) /\ nb t' = nb t /\ cap t' = cap t.
+  Proof.
+    intros HA HC E. destruct (bucket_range_ok t) as [Hnd Hbl].
+    assert (HG : G V hash pin alive t t' (rev (bucket_range t) ++ [])).
+    { eapply sweep_all_G; eauto using G_init. - now rewrite app_nil_r. - intros b Hb; now apply Hbl. }
+    apply (G_final V hash pin alive t t' _ HA HC HG). intros b Hb. rewrite app_nil_r, <- in_rev. now apply Hbl.
+  Qed.
 End THist.
 
